@@ -5,6 +5,7 @@ use crate::text;
 
 fn impl_name(buf: &[u8], pos: usize) -> String {
     let b = buf.to_vec();
+    watch(&format!("name.parse {} {}", text::hex(buf), pos));
     guard(move || match simple_dns::verif::parse_name_at(&b, pos) {
         Ok((n, p)) => format!("ok {} {}", text::name(&n), p),
         Err(_) => "err".to_string(),
